@@ -561,8 +561,59 @@ def ambient_gate(ck):
             if nonconst and all(ambient_term(c[0]) and "arg" not in show(c[0]) for c in nonconst):
                 bad = [show(c[0])[:60] for c in nonconst]
                 break
+        # ... nor cut short: a path that returns straight after an ambient test came out one way, while the path on which
+        # the same test came out the other way (same history before it) goes on to do more of the function's work
+        if not bad:
+            def split_at_last(p):
+                nc = [c for c in p.conds if c[0][0] != "const"]
+                if not nc or not (ambient_term(nc[-1][0]) and "arg" not in show(nc[-1][0])):
+                    return None
+                last = nc[-1]
+                # position of the test in the path: the block of the (last) call inside the condition term
+                bbs = []
+
+                def walk(t):
+                    if isinstance(t, tuple):
+                        if t and t[0] == "call" and isinstance(t[-1], int):
+                            bbs.append(t[-1])
+                        for x in t:
+                            walk(x)
+                walk(last[0])
+                pos = max((p.blocks.index(x) for x in bbs if x in p.blocks), default=None)
+                return nc[:-1], last, pos
+            for p, cc in info:
+                sp = split_at_last(p)
+                if sp is None or sp[2] is None:
+                    continue
+                before, last, pos = sp
+                after_p = [c for c in effects(p, cc) if c[0] in p.blocks[pos + 1:]]
+                if after_p:
+                    continue
+                for q, cq in info:
+                    if q is p:
+                        continue
+                    ncq = [c for c in q.conds if c[0][0] != "const"]
+                    if len(ncq) <= len(before) or [(c[0], c[1]) for c in ncq[:len(before)]] != [(c[0], c[1]) for c in before]:
+                        continue
+                    other = ncq[len(before)]
+                    if other[0] != last[0] or other[1] == last[1]:
+                        continue
+                    qpos = pos if pos < len(q.blocks) and q.blocks[:pos + 1] == p.blocks[:pos + 1] else None
+                    if qpos is None:
+                        continue
+                    after_q = [c for c in effects(q, cq) if c[0] in q.blocks[qpos + 1:]]
+                    if after_q:
+                        bad = [show(last[0])[:60]]
+                        bad_kind = "cut"
+                        bad_skipped = sorted({(c[1].get("path") or "?").rsplit("::", 1)[-1] for c in after_q})[:4]
+                        break
+                if bad:
+                    break
         key = "%s does not skip its work for an ambient reason" % "::".join(fn.replace("<", "").split("::")[-2:])[:90]
-        if bad:
+        if bad and locals().get("bad_kind") == "cut":
+            ck.bad(rid, key, where(b.raw["sp"]), "a path returns right after %s while the other outcome goes on to %s: part of the function's work depends on an ambient circumstance" % (bad, bad_skipped), fn=fn)
+            bad_kind = None
+        elif bad:
             ck.bad(rid, key, where(b.raw["sp"]), "a returning path does nothing, selected only by %s, while other paths do the function's work" % bad, fn=fn)
         else:
             ck.ok(rid, key, fn=fn, detail=len(paths))
